@@ -1,12 +1,12 @@
 ---- MODULE MC_Boundary ----
 (* Family "boundary": SetObj b ; NewEmpty ; CopyTo ; FreshObj ; CopyFrom for every entry b of the boundary table of the
-   Go type, in every scalar position of every proto scalar type.  Serves C19, C04.  The harness appends seeded random
+   Go type, in every scalar position of every proto scalar type.  Serves C19, C04, C03, C20.  The harness appends seeded random
    values of the same Go types to the same behaviours. *)
 EXTENDS GenShapes, TLC, Json
 CONSTANTS MCDeep, MCLong
 VARIABLES sh, M, Mi, obj, tf, dg, pn, pc, hist, viol, aux
 MCShapes == BoundaryShapes
-MCProps == {"C19", "C04"}
+MCProps == {"C19", "C04", "C03", "C20"}
 MCScript == <<"SetObj", "NewEmpty", "CopyTo", "FreshObj", "CopyFrom">>
 ASSUME PrintT("SHAPES " \o ToJson(MCShapes))
 INSTANCE Session WITH Shapes <- MCShapes, Script <- MCScript, Deep <- MCDeep, Props <- MCProps, ObjMode <- "boundary", RawMode <- "plans", EmptyMode <- "plain"
